@@ -14,7 +14,7 @@ import numpy as np
 
 from .. import exprs as E
 from .. import gen
-from .common import (build_both, compare_errors, fl, lean_assemble, mpf, net_oracle, num_close, sym_vs_lean, vec_close, mpf_s)
+from .common import (multiset_close, build_both, compare_errors, fl, lean_assemble, mpf, net_oracle, num_close, sym_vs_lean, vec_close, mpf_s)
 
 PROP = "C01"
 LEAN = {"module": "Pygom.Props.C01",
@@ -196,7 +196,7 @@ def run_case(case):
         # then add_* calls), so rates and columns are compared as a multiset of (rate, column) pairs
         got = sorted([[float(a_n[j])] + [float(v) for v in Vn_cols[j]] for j in range(nE)])
         exp = sorted([[float(a_o[j])] + [float(v) for v in V_o[j]] for j in range(len(a_o))])
-        if len(got) != len(exp) or not all(vec_close(g, e) for g, e in zip(got, exp)):
+        if not multiset_close(got, exp):
             viol.append({"what": "(eventRateVector, vMat column) pairs != declared (rate, magnitudes)", "signature": sig(meta, "rates+vmat"),
                          "detail": "got=%s expected=%s" % (got, exp)})
         recon = V_n.dot(a_n) + p_n if nE > 0 else p_n
